@@ -34,6 +34,7 @@ func init() {
 func runC13(c *core.Ctx) {
 	c.Rule("C13.typeof", "A7: per AST node type, MarshalJSON's Type(x) = unmarshal's CheckTypeOf(x), and getNode has a case x constructing that Go type; every typeOf a MarshalJSON can emit has a factory case")
 	c.Rule("C13.keys", "A7: per AST node type, the keys written by MarshalJSON and read by unmarshal are the same set, bind the same struct field, and the reader is of the setter's kind")
+	c.Rule("C13.formatfields", "A7: every field of an AST node that its Format prints from (and that therefore decides what the formatted script says) is written by MarshalJSON and assigned by unmarshal, or Format has a fallback for the field's zero value: a node read back from JSON must format to the text it came from (parentheses of a binary expression, the literal of a regex)")
 	c.Rule("C13.equalfields", "A7: every field a node's Equal compares is written by MarshalJSON and assigned by unmarshal")
 	c.Rule("C13.factory", "A9: JSONNode.getNode never reaches n.unmarshal with n unset (unknown typeOf ⇒ error)")
 	c.Rule("C13.codec", "A7: a value written with pkg.Format<S> is read back with pkg.Parse<S> of the same package (JSONNode.SetDuration/Duration and every pipeline node's MarshalJSON/UnmarshalJSON pair): two duration syntaxes (influxql: w,d,u vs. Go: none of them) do not round-trip")
@@ -48,6 +49,7 @@ func runC13(c *core.Ctx) {
 
 	if pkg := c.P.Pkg("tick/ast"); pkg != nil {
 		c13AST(c, pkg)
+	c13JSONRead(c, pkg)
 		c13Codec(c, pkg, "JSONNode", "SetDuration", "JSONNode", "Duration")
 		c13StrEscape(c, pkg)
 	} else {
@@ -132,11 +134,19 @@ func c13ReaderForType(t types.Type) []string {
 	return nil
 }
 
+// fields that choose between two spellings of the same program (reviewed; one line of reason each)
+var c13LayoutOnly = map[string]string{
+	"BinaryNode.MultiLine":    "only decides whether the operands are put on separate lines",
+	"FunctionNode.MultiLine":  "only decides whether the arguments are put on separate lines",
+	"StringNode.TripleQuotes": "chooses the quoting style; the single-quoted form escapes exactly what the parser unescapes (C13.strescape)",
+}
+
 func c13AST(c *core.Ctx, pkg *packages.Package) {
 	info := pkg.TypesInfo
 	marsh := methodsByRecv(pkg, "MarshalJSON")
 	unm := methodsByRecv(pkg, "unmarshal")
 	equal := methodsByRecv(pkg, "Equal")
+	formatM := methodsByRecv(pkg, "Format")
 	typeOfM := methodsByRecv(pkg, "TypeOf")
 
 	resolveType := func(fd *ast.FuncDecl, x ast.Expr) (string, bool) {
@@ -404,6 +414,84 @@ func c13AST(c *core.Ctx, pkg *packages.Package) {
 		for _, k := range an.SortedKeys(read) {
 			if written[k] == nil {
 				c.Fail("C13.keys", tn+"."+k+"#written", read[k].pos, "key %q is read by unmarshal but never written by MarshalJSON", k)
+			}
+		}
+		// Format-field completeness
+		if fm := formatM[tn]; fm != nil {
+			wf, rf := map[string]bool{}, map[string]bool{}
+			for _, w := range written {
+				for f := range w.fields {
+					wf[f] = true
+				}
+			}
+			for _, r := range read {
+				if r.field != "" {
+					rf[r.field] = true
+				}
+			}
+			fields := map[string]token.Pos{}
+			locals := map[types.Object]string{} // local := n.Field
+			ast.Inspect(fm.Decl.Body, func(n ast.Node) bool {
+				switch x := n.(type) {
+				case *ast.SelectorExpr:
+					if f := recvField(info, fm.Decl, x); f != "" {
+						fields[f] = x.Pos()
+					}
+				case *ast.AssignStmt:
+					if len(x.Lhs) == 1 && len(x.Rhs) == 1 {
+						if sel, ok := ast.Unparen(x.Rhs[0]).(*ast.SelectorExpr); ok {
+							if f := recvField(info, fm.Decl, sel); f != "" {
+								if id, ok := x.Lhs[0].(*ast.Ident); ok && info.Defs[id] != nil {
+									locals[info.Defs[id]] = f
+								}
+							}
+						}
+					}
+				}
+				return true
+			})
+			fallback := map[string]bool{}
+			ast.Inspect(fm.Decl.Body, func(n ast.Node) bool {
+				be, ok := n.(*ast.BinaryExpr)
+				if !ok || (be.Op != token.EQL && be.Op != token.NEQ) {
+					return true
+				}
+				zero := func(x ast.Expr) bool {
+					s := types.ExprString(x)
+					return s == `""` || s == "nil" || s == "0"
+				}
+				for _, pair := range [][2]ast.Expr{{be.X, be.Y}, {be.Y, be.X}} {
+					if !zero(pair[1]) || be.Op != token.EQL {
+						continue
+					}
+					if sel, ok := ast.Unparen(pair[0]).(*ast.SelectorExpr); ok {
+						if f := recvField(info, fm.Decl, sel); f != "" {
+							fallback[f] = true
+						}
+					}
+					if id, ok := ast.Unparen(pair[0]).(*ast.Ident); ok {
+						if f, ok := locals[info.Uses[id]]; ok {
+							fallback[f] = true
+						}
+					}
+				}
+				return true
+			})
+			for _, f := range an.SortedKeys(fields) {
+				if f == "Comment" || f == "position" {
+					continue // comments are separate nodes of the program; positions are not part of what a script says
+				}
+				if why, ok := c13LayoutOnly[tn+"."+f]; ok {
+					c.Ok("C13.formatfields", tn+"."+f)
+					c.Note("C13.formatfields: %s.%s is not in the JSON form: %s", tn, f, why)
+					continue
+				}
+				switch {
+				case wf[f] && rf[f], fallback[f]:
+					c.Ok("C13.formatfields", tn+"."+f)
+				default:
+					c.Fail("C13.formatfields", tn+"."+f, fields[f], "Format prints from field %s, which the JSON form does not carry (written %v, read %v) and for which Format has no zero-value fallback: a %s read back from JSON is formatted differently from the script it came from", f, wf[f], rf[f], tn)
+				}
 			}
 		}
 		// Equal-field completeness
@@ -1357,4 +1445,97 @@ func c13StrEscape(c *core.Ctx, pkg *packages.Package) {
 			}
 			return "rune"
 		}})
+}
+
+// c13JSONRead: reader-side rules of the generic JSON carrier of AST nodes.
+func c13JSONRead(c *core.Ctx, pkg *packages.Package) {
+	info := pkg.TypesInfo
+	c.Rule("C13.nulllist", "A7: what MarshalJSON can write for a list of nodes, NodeList can read: a nil list marshals as null, so NodeList returns an empty list (not an error) when the field's value is nil")
+	c.Rule("C13.numbers", "A7: integers of the JSON form are read exactly: the carrier decodes with UseNumber (JSONNode has its own UnmarshalJSON) and JSONNode.Int64 converts a json.Number with Int64() before any float64 path")
+	c.Rule("C13.lexcomment", "A1: the lexer continues a comment onto the next line only when that line starts with two slashes (one slash starts a regex literal), and lexRegex hands a following `//` to the comment state")
+	if fn := c.Need("C13.nulllist", "tick/ast", "JSONNode", "NodeList"); fn != nil {
+		// the value fetched from the map
+		val := ""
+		ast.Inspect(fn.Decl.Body, func(n ast.Node) bool {
+			if as, ok := n.(*ast.AssignStmt); ok && len(as.Lhs) == 2 && len(as.Rhs) == 1 && val == "" {
+				val = types.ExprString(as.Lhs[0])
+			}
+			return true
+		})
+		okk := false
+		var assertPos, nilPos token.Pos
+		ast.Inspect(fn.Decl.Body, func(n ast.Node) bool {
+			switch x := n.(type) {
+			case *ast.IfStmt:
+				if types.ExprString(x.Cond) == val+" == nil" && len(x.Body.List) == 1 {
+					if r, ok := x.Body.List[0].(*ast.ReturnStmt); ok && len(r.Results) == 2 && types.ExprString(r.Results[1]) == "nil" {
+						okk = true
+						nilPos = x.Pos()
+					}
+				}
+			case *ast.TypeAssertExpr:
+				if types.ExprString(x.X) == val && assertPos == token.NoPos {
+					assertPos = x.Pos()
+				}
+			}
+			return true
+		})
+		c.Check(okk && (assertPos == token.NoPos || nilPos < assertPos), "C13.nulllist", "JSONNode.NodeList#null", fn.Decl.Pos(), "NodeList rejects a null value: a function call without arguments (count(), sigma() without …) marshals its nil argument list as null and cannot be read back from its own JSON")
+	}
+	// numbers
+	jn := pkg.Types.Scope().Lookup("JSONNode")
+	hasUN, usesNumber := false, false
+	if jn != nil {
+		if fn := c.P.FindFunc("tick/ast", "JSONNode", "UnmarshalJSON"); fn != nil {
+			hasUN = true
+			c.Analysed(fn)
+			ast.Inspect(fn.Decl.Body, func(n ast.Node) bool {
+				if call, ok := n.(*ast.CallExpr); ok {
+					if f := core.Callee(info, call); f != nil && f.Name() == "UseNumber" {
+						usesNumber = true
+					}
+				}
+				return true
+			})
+		}
+	}
+	exact := false
+	if fn := c.Need("C13.numbers", "tick/ast", "JSONNode", "Int64"); fn != nil {
+		// a json.Number branch that calls Int64() and returns its result
+		ast.Inspect(fn.Decl.Body, func(n ast.Node) bool {
+			if call, ok := n.(*ast.CallExpr); ok {
+				if f := core.Callee(info, call); f != nil && f.Name() == "Int64" && core.RecvTypeName(f) == "Number" {
+					exact = true
+				}
+			}
+			return true
+		})
+	}
+	c.Check(hasUN && usesNumber && exact, "C13.numbers", "JSONNode#int64", token.NoPos, "the JSON form of an AST is decoded through float64 (own UnmarshalJSON %v, UseNumber %v, exact Int64 conversion %v): 9007199254740993 reads back as 9007199254740992 and MaxInt64 as MinInt64", hasUN, usesNumber, exact)
+	// lexer
+	if fn := c.Need("C13.lexcomment", "tick/ast", "", "lexComment"); fn != nil {
+		// the condition under which the comment continues on the next line
+		cont := ""
+		ast.Inspect(fn.Decl.Body, func(n ast.Node) bool {
+			if ifs, ok := n.(*ast.IfStmt); ok {
+				for _, st := range ifs.Body.List {
+					if b, ok := st.(*ast.BranchStmt); ok && b.Tok == token.CONTINUE {
+						cont = types.ExprString(ifs.Cond)
+					}
+				}
+			}
+			return true
+		})
+		c.Check(strings.Count(cont, "'/'") >= 2, "C13.lexcomment", "lexComment#continuation", fn.Decl.Pos(), "the comment continues onto the next line under `%s`; it must require two slashes: a line that starts with one slash is a regex literal, which is otherwise swallowed into the comment (the argument disappears from the formatted script)", cont)
+	}
+	if fn := c.Need("C13.lexcomment", "tick/ast", "", "lexRegex"); fn != nil {
+		hands := false
+		ast.Inspect(fn.Decl.Body, func(n ast.Node) bool {
+			if r, ok := n.(*ast.ReturnStmt); ok && len(r.Results) == 1 && types.ExprString(r.Results[0]) == "lexComment" {
+				hands = true
+			}
+			return true
+		})
+		c.Check(hands, "C13.lexcomment", "lexRegex#comment", fn.Decl.Pos(), "after =~, !~ or = the lexer goes straight to lexRegex; a `// comment` there must be handed to lexComment, otherwise it is read as the empty regex and the script no longer parses")
+	}
 }
